@@ -11,6 +11,8 @@ from . import tr
 from ..fde import FDE
 from .common import node_obj, fde_guard
 
+from .common import Guard  # noqa: E402
+
 PROP = 'C14'
 DECIDED = [
     'R1: in Config.__init__ the placeholder scan (check_missing on the source tree) precedes the deep copy and the evaluation on every path.',
@@ -165,10 +167,12 @@ def r4(repo, run):
 
 
 def check(repo, run, tier):
-    r1(repo, run)
-    r2(repo, run)
-    r3(repo, run)
-    r4(repo, run)
+    g = Guard()
+    g(r1, repo, run)
+    g(r2, repo, run)
+    g(r3, repo, run)
+    g(r4, repo, run)
+    g.done()
 
 
 def mutants(repo):
